@@ -1,13 +1,90 @@
 (* Property C11 — the SQL generated for TraceQL selects exactly the traces the query describes.
-   Only statements; proofs by reference. *)
-From Coq Require Import List NArith ZArith Bool String.
-From Qryn Require Import model.TqSql model.Traceql model.TraceqlPlan proofs.TraceqlBitsetProofs.
-Import ListNotations.
+   Only statements; proofs by reference.
 
-(* The HAVING clause the planner emits over the per-span bit set (bitAnd(groupBitOr(sum of
-   bitShiftLeft(term_i, i)), 2^i) != 0 combined by and/or) is true exactly when the boolean tree
-   holds with "term i is true of some index row of the span". *)
+   Vocabulary (model/):  Traceql.v = the parsed script;  TraceqlPlan.v = the planners (plan q mode ctx n =
+   the statement of the n-th Process call; its text is compared byte for byte with the implementation's
+   on every run);  TqSql.v = SQL objects, renderer, wf_sel;  TraceqlSem.v = exp_sem / traceql_sem (what a
+   script means over the attribute index) and ev / eval_sel (the trusted evaluator of the emitted
+   ClickHouse subset).  re_match, parse_float, hash64 stand for RE2, the Float64 parser and cityHash64:
+   every theorem holds for all of them. *)
+From Coq Require Import List NArith ZArith QArith Bool String.
+From Qryn Require Import model.TqSql model.Traceql model.TraceqlPlan model.TraceqlSem
+     proofs.TraceqlBitsetProofs proofs.TraceqlAnalyzeProofs proofs.TraceqlEvalProofs proofs.TraceqlSelectorProofs.
+Import ListNotations.
+Open Scope string_scope.
+
+(* 1. The bit-set encoding, abstractly: the HAVING the planner emits over the per-span bit set
+   (bitAnd(groupBitOr(sum of bitShiftLeft(term_i, i)), 2^i) != 0 combined by and/or) is true exactly when
+   the boolean tree holds with "term i is true of some index row of the span". *)
 Theorem having_is_holds : forall (row : Type) (ts : list (row -> bool)) (rows : list row) (c : cond),
   having c (bs row ts rows) = holds row ts rows c.
 Proof. exact TraceqlBitsetProofs.having_is_holds. Qed.
 Print Assumptions having_is_holds.
+
+(* 2. analyzeCond (distinct terms + tree of term indices, repeated terms share a bit) keeps the meaning of
+   the selector's boolean expression, for every expression with nested and/or, parentheses and repeats. *)
+Theorem analyze_keeps_meaning : forall re_match parse_float lit_round (e : attr_exp),
+  keys_ok e = true ->
+  let '(c, st) := analyze_cond e ([], []) in
+  forall rows, cond_sem re_match parse_float lit_round (fst st) rows c = exp_sem re_match parse_float lit_round e rows.
+Proof.
+  intros re_match parse_float lit_round e H. pose proof (analyze_sem re_match parse_float lit_round e H) as A.
+  destruct (analyze_cond e ([], [])) as [c st]. exact (proj2 A).
+Qed.
+Print Assumptions analyze_keeps_meaning.
+
+(* 3. Each term: the SQL condition getTerm builds (string =, !=, =~, !~; numeric = != < <= > >= behind
+   isNotNull(toFloat64OrNull(val)); duration comparisons in ns) is true of an index row, according to the
+   evaluator, exactly when the term is true of that row. *)
+Theorem term_condition_correct : forall re_match parse_float hash64 cte al keys,
+  lookup_alias "key" al = None -> lookup_alias "val" al = None -> lookup_alias "traces_idx.duration" al = None ->
+  forall f self g r t e,
+    term_lit_ok t = true -> get_term t = Ok e ->
+    ev re_match parse_float hash64 cte al keys (5 + f) false self g (irow_row r) e
+    = Some (vbool (term_sem re_match parse_float true t r)).
+Proof. exact ev_get_term. Qed.
+Print Assumptions term_condition_correct.
+
+(* 4. The key/val pre-filter.  Under the guard Process applies (holdsWithoutIndexedTerm false) the rows
+   that survive it satisfy the analysed condition iff all rows of the span do, and a matching span keeps
+   at least one row.  (Without the guard this is false: see prefilter_needs_guard.) *)
+Theorem prefilter_keeps_matches : forall re_match parse_float lit_round terms extra rows c,
+  uniform_dur rows -> cond_wf (List.length terms) c -> holds_without_indexed terms c = false ->
+  (filter (prefilter re_match parse_float lit_round terms extra) rows <> [] /\
+   cond_sem re_match parse_float lit_round terms (filter (prefilter re_match parse_float lit_round terms extra) rows) c = true)
+  <-> cond_sem re_match parse_float lit_round terms rows c = true.
+Proof. exact prefilter_sound. Qed.
+Print Assumptions prefilter_keeps_matches.
+
+(* 5. One selector, both clauses: the statement AttrConditionPlanner builds keeps a span (its rows pass
+   WHERE when the planner adds one, and the group passes HAVING) exactly when the selector's expression
+   holds of the span; for every expression, every database content of the span, at most 64 distinct terms. *)
+Theorem selector_selects_matching_spans : forall re_match parse_float hash64 cte al keys,
+  lookup_alias "key" al = None -> lookup_alias "val" al = None -> lookup_alias "traces_idx.duration" al = None ->
+  forall (e : attr_exp) (attr : string) (conds : list expr),
+  keys_ok e = true ->
+  map_res get_term (fst (snd (analyze_cond e ([], [])))) = Ok conds ->
+  forallb term_lit_ok (fst (snd (analyze_cond e ([], [])))) = true ->
+  (List.length (fst (snd (analyze_cond e ([], [])))) <= 64)%nat ->
+  lookup_alias "bsCond" al = Some (GroupBitOr (BitSet conds) "") ->
+  forall (fw fh : nat) (rows : list irow),
+  (6 <= fw)%nat -> (cond_depth (fst (analyze_cond e ([], []))) + 11 <= fh)%nat ->
+  uniform_dur rows -> rows <> [] ->
+  let with_where :=
+    match (where_terms (fst (snd (analyze_cond e ([], [])))) conds ++ fst (agg_step attr))%list with
+    | [] => false
+    | _ => negb (holds_without_indexed (fst (snd (analyze_cond e ([], [])))) (fst (analyze_cond e ([], []))))
+    end in
+  keeps re_match parse_float hash64 cte al keys e attr conds with_where fw fh rows
+  = exp_sem re_match parse_float true e rows.
+Proof. exact selector_correct. Qed.
+Print Assumptions selector_selects_matching_spans.
+
+(* 6. Literals: the meaning with the literals as printed into the statement (%f, six decimals) is the meaning
+   with the exact literals whenever every literal survives %f (lits_exact; finding float-literal-6-decimals
+   is exactly the complement). *)
+Theorem rounding_is_the_only_gap : forall re_match parse_float (e : attr_exp) rows,
+  lits_exact e = true ->
+  exp_sem re_match parse_float true e rows = exp_sem re_match parse_float false e rows.
+Proof. intros. now apply exp_sem_round. Qed.
+Print Assumptions rounding_is_the_only_gap.
